@@ -240,6 +240,33 @@ func cmdCheck(args []string) int {
 		}
 	}
 	solveAll(items, tmp, timeoutS, 5, *tier == "thorough")
+	// second chance for obligations no solver decided in time (a loaded machine must not turn a slow query into an alarm):
+	// the undecided ones - known findings excepted - are tried once more, two at a time, with three times the budget
+	{
+		kfNames := map[string]bool{}
+		if data, err := os.ReadFile(filepath.Join(*verif, "known_findings.json")); err == nil {
+			var kf0 KnownFindings
+			if json.Unmarshal(data, &kf0) == nil {
+				for _, f := range kf0.Findings {
+					if f.Property == *prop && f.Status == "open" {
+						kfNames[f.Obligation] = true
+					}
+				}
+			}
+		}
+		var retry []*solveItem
+		for _, it := range items {
+			if !it.o.Vacuity && !kfNames[it.o.Name] && (it.o.Result == "unknown" || it.o.Result == "timeout") {
+				retry = append(retry, it)
+			}
+		}
+		if len(retry) > 0 && len(retry) <= 12 {
+			solveAll(retry, tmp, timeoutS*3, 2, false)
+			for _, it := range retry {
+				it.o.Retried = true
+			}
+		}
+	}
 	solveS := time.Since(t0).Seconds() - loadS - genS
 	// structural (method-set) obligations, decided on go/types
 	for _, s := range structurals {
